@@ -124,9 +124,11 @@ func genMembershipPlan(tp *simrt.Tape, seed uint64, tier string) any {
 func init() {
 	Register("C14", &Scenario{
 		Name: "membership",
-		Owns: []string{"C14"},
-		New:  func() any { return &confPlan{} },
-		Gen:  genMembershipPlan,
+		// the two small scenarios (whip-expiry, reconnect) have weight 1
+		Weight: 6,
+		Owns:   []string{"C14"},
+		New:    func() any { return &confPlan{} },
+		Gen:    genMembershipPlan,
 		Cfg: func(tp *simrt.Tape, plan any) simrt.Config {
 			c := swarmCfg(tp, false)
 			c.PCTPoints = 3000
